@@ -125,10 +125,16 @@ func (info *NodeInfo) DecodeJSON(b []byte, enc encoder.Encoder) error {
 		info.publickey = i
 	}
 
-	params := isaac.NewParams(info.networkID)
+	// NOTE isaac.Params is registered as pointer instance(launch.Hinters);
+	// decoder returns *isaac.Params.
+	var params *isaac.Params
 
-	if err := encoder.Decode(enc, u.Local.LocalParams, params); err != nil {
+	if err := encoder.Decode(enc, u.Local.LocalParams, &params); err != nil {
 		return e.Wrap(err)
+	}
+
+	if params == nil {
+		params = isaac.NewParams(info.networkID)
 	}
 
 	if err := params.SetNetworkID(info.networkID); err != nil {
@@ -146,7 +152,9 @@ func (info *NodeInfo) DecodeJSON(b []byte, enc encoder.Encoder) error {
 	// NOTE suffrage
 	info.suffrageHeight = u.Consensus.Suffrage.Height
 
-	info.consensusNodes = make([]base.Node, len(u.Consensus.Suffrage.Nodes))
+	if u.Consensus.Suffrage.Nodes != nil { // NOTE keeps nil; null is not []
+		info.consensusNodes = make([]base.Node, len(u.Consensus.Suffrage.Nodes))
+	}
 	for i := range u.Consensus.Suffrage.Nodes {
 		if err := encoder.Decode(enc, u.Consensus.Suffrage.Nodes[i], &info.consensusNodes[i]); err != nil {
 			return e.Wrap(err)
